@@ -310,6 +310,14 @@ class TagList(UserList[TagNode]):
 
         return TagList(self, *item)
 
+    def __iadd__(self, item: Iterable[TagChild]) -> TagList:
+        """
+        Extend the list in place; the items are normalized like `.extend()` does.
+        """
+
+        self.extend(item)
+        return self
+
     def __radd__(self, item: Iterable[TagChild]) -> TagList:
         """
         Return a new TagList with the item added to the beginning.
